@@ -265,7 +265,8 @@ def confirmedBad (found : Option (Dotted × ModSpec)) (a : Dotted) : Bool :=
 def visitRel (P : Proj) (f : File) (c : Cur) (line level : Nat) (module : Option Dotted)
     (names : List (Str × Option Str)) (st : Bool) (t : Tab) (s : St) : Out Tab :=
   match deriveModuleNameFromPath P.env (curComps P c) with
-  | none => .stop (.crash "ValueError") s
+  -- since /repo c5833ef: `error.fatal("unable to resolve relative imports in …")` (was a bare `raise ValueError`)
+  | none => .stop .fatal (s.diag .fatal "rel-no-base" (some line))
   | some base =>
     let r := resolveRel f c base module level s
     let found := findModuleNameAndSpec P.env r.1
